@@ -13,8 +13,8 @@
    backreferences, anchors, legacy classes, strings in classes) is validated, not proved. *)
 From RV Require Import Base.
 From RV.Model Require Import Utf8 Indexer CodePointSet Insn Fold IR Unfold ClassSet.
-From RV.Spec Require Import Spec IRSem.
-From RV.Proofs Require Import QuantSim Closure ClassSetProofs Utf8Facts Utf8Valid ClassAtom SeqSim.
+From RV.Spec Require Import Spec IRSem IRShape.
+From RV.Proofs Require Import QuantSim SearchSim Closure ClassSetProofs Utf8Facts Utf8Valid ClassAtom SeqSim.
 
 Theorem c01_class_atom_is_the_reference : forall foldf unicode utf16 pre post c icase e f f' G caps,
   wf_text (pre ++ c :: post) -> vwf e = true -> sfree e = true ->
@@ -179,6 +179,26 @@ Theorem c01_fragment_closed_under_plus : forall foldf unicode utf16 cs eqclass, 
        (kr + S (S (length cs))) (kn + S (S (S (length cs)))) /\ monoP cs (plusP cs g P).
 Proof. intros foldf unicode utf16 cs eqclass Hw Hs. exact (plus_gden foldf unicode utf16 cs Hw eqclass Hs). Qed.
 
+(* the general quantifier r{mn,mx} / r{mn,mx}? (mx = None: unbounded; mn <= mx as the parser requires): both sides compute
+   qP, the recursion of the reference RepeatMatcher; the Loop node's counter k stands for (mn - k, mx - k); at most mn
+   iterations make no progress, every later one does *)
+Theorem c01_fragment_closed_under_quantifiers : forall foldf unicode utf16 cs eqclass, wf_text cs ->
+  forall kr kn r n P g gs egs mn mx, gden foldf unicode utf16 cs eqclass r n P kr kn -> monoP cs P ->
+  (forall M, mx = Some M -> (mn <= M)%nat) -> (N.of_nat (mn + S (S (length cs))) < USIZE_MAX)%N ->
+  gden foldf unicode utf16 cs eqclass (RQuant r mn mx g gs gs) (NLoop n (N.of_nat mn) (option_map N.of_nat mx) g egs egs) (qP cs g P mn mx)
+       (kr + mn + S (length cs)) (kn + mn + S (S (S (length cs)))) /\ monoP cs (qP cs g P mn mx).
+Proof.
+  intros foldf unicode utf16 cs eqclass Hw kr kn r n P g gs egs mn mx Hd Hm Hv Hs.
+  assert (Hs' : (N.of_nat (S (S (length cs))) < USIZE_MAX)%N) by lia.
+  exact (quant_gden foldf unicode utf16 cs Hw eqclass Hs' kr kn r n P g gs egs mn mx Hd Hm Hv Hs).
+Qed.
+
+Example c01_quantifier_example : let cs := [[97]; [97]; [97]; [98]]%N in
+  es_results (fun x => fold_code_point x true) unfold_char (map dec cs) 12 (RQuant (RChar 97 false) 1 (Some 2%nat) false 0 0) Fwd (0%nat, []) = Some [(1%nat, []); (2%nat, [])] /\
+  ir_results (utf8_indexer fold_code_point) true false (concat cs) 12 (NLoop (NChar 97) 1%N (Some 2%N) false 0 0) true (0%nat, []) = Some [(1%nat, []); (2%nat, [])] /\
+  qP cs false (posD cs (fun d => (d =? 97)%N)) 1 (Some 2%nat) 0 = [1; 2]%nat /\ qP cs true (posD cs (fun d => (d =? 97)%N)) 2 None 0 = [3; 2]%nat.
+Proof. vm_compute. repeat split. Qed.
+
 Theorem c01_fragment_is_monotone : forall cs,
   (forall t, monoP cs (posD cs t)) /\ (forall cond, monoP cs (assertP cond)) /\ (forall neg P, monoP cs (lookP neg P)) /\
   (forall g P, monoP cs P -> monoP cs (optP g P)) /\ (forall Ps, Forall (monoP cs) Ps -> monoP cs (catP Ps)) /\
@@ -199,6 +219,48 @@ Example c01_star_example : let cs := [[97]; [97]; [98]]%N in
   ir_results (utf8_indexer fold_code_point) true false (concat cs) 9 (NLoop (NChar 97) 0%N None true 0 0) true (0%nat, []) = Some [(2%nat, []); (1%nat, []); (0%nat, [])] /\
   starP cs true (posD cs (fun d => (d =? 97)%N)) 0 = [2; 1; 0]%nat /\ starP cs false (posD cs (fun d => (d =? 97)%N)) 0 = [0; 1; 2]%nat.
 Proof. vm_compute. repeat split. Qed.
+
+(* from result lists to the first match, as C01 states it: for a pattern r of the fragment whose IR, as the parser
+   returns it, is Cat [x; Goal], the leftmost search of the reference (code point by code point from the start) and the
+   leftmost search over the IR the search runs on (ir_top: one UTF-8 sequence at a time) return the same match - no
+   match on both sides, or start and end at corresponding offsets -, from every start, given enough tries and fuel;
+   the match starts at or after the start, ends at a position the denotation gives, and no capture is set *)
+Theorem c01_first_match_of_fragment : forall foldf unicode utf16 cs eqclass, wf_text cs ->
+  forall r x P kr kn, gden foldf unicode utf16 cs eqclass r x P kr kn ->
+  forall ng f f', (kr <= f)%nat -> (S kn <= f')%nat ->
+  forall tries i, (i <= length cs)%nat -> (length cs - i < tries)%nat ->
+  proj_es cs (search (fun c => fold_code_point c unicode) eqclass (map dec cs) (S f) r ng i tries) =
+  proj_ir (ir_search (utf8_indexer foldf) unicode utf16 (concat cs) (S f') (ir_top (NCat [x; NGoal])) ng tries (off cs i)) /\
+  (forall s e c, search (fun c => fold_code_point c unicode) eqclass (map dec cs) (S f) r ng i tries = Some (Some (s, e, c)) ->
+     c = repeat None ng /\ In e (P s) /\ (i <= s)%nat).
+Proof.
+  intros foldf unicode utf16 cs eqclass Hw r x P kr kn Hd ng f f' Hf Hf' tries i Hi Ht.
+  exact (first_match_of_fragment foldf unicode utf16 cs Hw eqclass r _ P kr (S kn) (gden_top foldf unicode utf16 cs eqclass r x P kr kn Hd) ng f f' Hf Hf' tries i Hi Ht).
+Qed.
+
+(* the theorems compose: the pattern a*b, as the parser builds it, from the atoms through the star and the term to the
+   first match - on every well-formed text (no evaluation involved: the hypotheses of each step are met by the previous) *)
+Example c01_composed_a_star_b : forall foldf utf16 cs, wf_text cs -> (N.of_nat (S (S (length cs))) < USIZE_MAX)%N ->
+  exists P kr kn,
+    gden foldf false utf16 cs unfold_char (RSeq (RQuant (RChar 97 false) 0 None true 0 0) (RChar 98 false))
+         (NCat [NLoop (NChar 97) 0%N None true 0 0; NChar 98]) P kr kn /\
+    forall ng tries i, (i <= length cs)%nat -> (length cs - i < tries)%nat ->
+      proj_es cs (search (fun c => fold_code_point c false) unfold_char (map dec cs) (S kr) (RSeq (RQuant (RChar 97 false) 0 None true 0 0) (RChar 98 false)) ng i tries) =
+      proj_ir (ir_search (utf8_indexer foldf) false utf16 (concat cs) (S (S kn)) (ir_top (NCat [NCat [NLoop (NChar 97) 0%N None true 0 0; NChar 98]; NGoal])) ng tries (off cs i)).
+Proof.
+  intros foldf utf16 cs Hw Hs.
+  pose proof (char_is_atom foldf false utf16 cs Hw unfold_char 97 false (NChar 97) eq_refl) as Ha.
+  pose proof (char_is_atom foldf false utf16 cs Hw unfold_char 98 false (NChar 98) eq_refl) as Hb.
+  apply (atom_gatom foldf false utf16 cs unfold_char) in Ha, Hb. apply (gatom_gden foldf false utf16 cs unfold_char) in Ha, Hb.
+  destruct (star_gden foldf false utf16 cs Hw unfold_char Hs 0 0 _ _ _ true 0 0 Ha (posD_mono cs _)) as [Hstar _].
+  pose proof (gden_weaken foldf false utf16 cs unfold_char _ _ _ 0 0 (0 + S (length cs)) (0 + S (S (length cs))) ltac:(lia) ltac:(lia) Hb) as Hb'.
+  eassert (H3 : Forall3 (fun r n P => gden foldf false utf16 cs unfold_char r n P (0 + S (length cs))%nat (0 + S (S (length cs)))%nat) [_; _] [_; _] [_; _]).
+  { constructor; [exact Hstar|constructor; [exact Hb'|constructor]]. }
+  pose proof (nested_term foldf false utf16 cs unfold_char _ _ _ _ _ H3) as Ht.
+  cbn [seq_of make_cat length] in Ht.
+  eexists _, _, _. split; [exact Ht|]. intros ng tries i Hi Htr.
+  apply (c01_first_match_of_fragment foldf false utf16 cs unfold_char Hw _ _ _ _ _ Ht ng _ _ (le_n _) (le_n _) tries i Hi Htr).
+Qed.
 
 (* the three kinds of atoms *)
 Theorem c01_atoms : forall foldf utf16 cs, wf_text cs ->
